@@ -471,6 +471,35 @@ fn put_bytes<W: Write>(w: &mut W, s: &str) -> fmt::Result {
 }
 
 /// ` w h p_0 ... p_{w*h-1}` (row-major), each integer preceded by a space.
+/// A logger that accepts every record and discards it.  With it installed at the `Trace` level the arguments of the
+/// crate's `debug!` / `trace!` lines are evaluated, as they are in an application that has logging switched on, so a
+/// log line that indexes or unwraps shows up as the panic it would be there.
+struct DiscardLogger;
+impl log::Log for DiscardLogger {
+    fn enabled(&self, _: &log::Metadata) -> bool {
+        true
+    }
+    fn log(&self, record: &log::Record) {
+        // format the message: that is what evaluates the arguments
+        use std::fmt::Write as _;
+        let mut sink = NullSink;
+        let _ = write!(sink, "{}", record.args());
+    }
+    fn flush(&self) {}
+}
+struct NullSink;
+impl std::fmt::Write for NullSink {
+    fn write_str(&mut self, _: &str) -> std::fmt::Result {
+        Ok(())
+    }
+}
+pub fn install_discard_logger() {
+    static LOGGER: DiscardLogger = DiscardLogger;
+    if log::set_logger(&LOGGER).is_ok() {
+        log::set_max_level(log::LevelFilter::Trace);
+    }
+}
+
 /// VERIF_IMAGE_DIGEST=<n>: an image with more than n pixels is printed as `w h -1 lo hi` (lo, hi: the two 31-bit halves
 /// of an FNV-1a hash of its pixels) instead of w * h pixel words.  Only the C05 walk sets it, for the canvases of
 /// several million pixels that corrupted size fields produce; two builds still have to agree on the digest.
